@@ -485,6 +485,8 @@ Definition MI_GetMobileIdentity (buf : bytes) : outcome (bytes * bytes) :=
   if eqb_bytes idType s_SUCI then v <- MI_GetSUCI buf ;; Ok (v, idType)
   else if eqb_bytes idType s_5GGUTI then v <- MI_Get5GGUTI buf ;; Ok (v, idType)
   else if eqb_bytes idType s_IMEI then v <- MI_GetIMEI buf ;; Ok (v, idType)
-  else if eqb_bytes idType s_5GSTMSI then v <- MI_Get5GTMSI buf ;; Ok (v, idType)
+  else if eqb_bytes idType s_5GSTMSI then
+    (* tmsi5gs, _, err5gs := a.Get5GSTMSI(); return tmsi5gs, idType, err5gs   (err5gs is always nil) *)
+    r <- MI_Get5GSTMSI buf ;; Ok (fst r, idType)
   else if eqb_bytes idType s_IMEISV then v <- MI_GetIMEISV buf ;; Ok (v, idType)
   else v <- MI_GetSUCI buf ;; Ok (v, s_SUCI).
